@@ -93,3 +93,42 @@ for operand, meth in (('GROUP', 'dnextm'), ('LOCATION', 'dnextm'), ('LIGHT', 'dn
         c.ensures('backward-the-greatest-smaller-name-else-null',
                   "not old(self._reg.disc_forward) ==> ((self._reg.result is Operand.NULL and all(x >= current for x in _names)) or "
                   "(any(self._reg.result is x for x in _names) and self._reg.result < current and all(x >= current or x <= self._reg.result for x in _names)))")
+
+
+# ---- stepping uses the directory as it is NOW: a group / location that vanished after the iteration started is not
+#      visited, one that appeared is (the name lists must not be remembered across steps)
+for operand, field in (('GROUP', '_groups'), ('LOCATION', '_locations')):
+    for change in ('vanishes', 'appears'):
+        c = contract(VD, 'step_after_change', serves=['C04', 'C13'], name='lemma:disc; a %s %s; dnext [forward]' % (operand.lower(), change), src='''
+def step_after_change(vd, table, key, members, current):
+    vd.disc()
+    first = vd._reg.result
+    if members is None:
+        del table[key]
+    else:
+        table[key] = members
+    vd.dnext(current)
+    return (first, vd._reg.result)
+''')
+        def _setup(b, case, operand=operand, field=field, change=change):
+            n = [b.sym('atom', 'name%d' % i) for i in range(3)]
+            for i in range(2):
+                b.assume(n[i].t < n[i + 1].t) if isinstance(n[i], SymVal) else None
+            b.nonempty(*n)
+            m = b.sym('atom', 'member')
+            present = {n[0]: [m], n[2]: [m]} if change == 'appears' else {n[0]: [m], n[1]: [m], n[2]: [m]}
+            ls = lib.light_set_with(b, {}, **{field[1:]: present})
+            lib.injection_reset(b)
+            lib.provide(b, b.cls('bardolph.controller.i_controller', 'LightSet'), ls)
+            reg = b.new(b.module('bardolph.vm.machine').ns['Registers'])
+            reg.attrs['operand'] = b.enum('bardolph.vm.vm_codes', 'Operand', operand)
+            reg.attrs['disc_forward'] = True
+            cs = b.new(b.cls('bardolph.vm.call_stack', 'CallStack'), PyDict())
+            vd = b.new(b.cls('bardolph.vm.vm_discover', 'VmDiscover'), cs, reg)
+            sl = b.cls('bardolph.lib.sorted_list', 'SortedList')
+            return {'vd': vd, 'table': ls.attrs[field], 'key': n[1], 'members': PyList([m], sl) if change == 'appears' else None,
+                    'current': n[0], '_n0': n[0], '_n1': n[1], '_n2': n[2]}
+        c.setup(_setup)
+        c.bounded('three names')
+        c.ensures('starts-at-the-first', 'result[0] is _n0')
+        c.ensures('next-is-the-next-name-of-the-directory-as-it-is-now', 'result[1] is (_n1 if %s else _n2)' % ('True' if change == 'appears' else 'False'))
